@@ -16,6 +16,11 @@ REQUIRED_COUNTERS = ["cells_compared", "other_field_cells", "csv_tables", "metam
 ANCHOR_FUNCS = ["Data.get_scores", "Data._get_score"]
 
 NAN = float("nan")
+
+
+def refmetrics_mean(xs):
+    from vmon import refmetrics
+    return refmetrics.mean(xs)
 SHIFT_INV = ["mae", "rmse", "bias", "stderror", "ef"]
 
 
@@ -93,6 +98,46 @@ def run_case(ctx, rng, ci):
                             break
         else:
             ctx.count("other_field_cells", 0)
+    # (a2) the anomaly must not depend on what was requested before: whole-array requests for every input, then slices
+    if all("fcst" in i["has"] for i in ds["inputs"]):
+        import verif.metric
+        data = vutil.build_data(paths, cpath, opts)
+        try:
+            for k in range(F):
+                data.get_scores(verif.field.Obs(), k)
+                data.get_scores([verif.field.Obs(), verif.field.Fcst()], k)
+            for k in range(F):
+                go, gf = data.get_scores([verif.field.Obs(), verif.field.Fcst()], k)
+                go, gf = np.array(go, float), np.array(gf, float)
+                bad = None
+                for a, t in enumerate(times):
+                    for b, l in enumerate(leads):
+                        for c, s_ in enumerate(locs):
+                            v = refmodel.case_values(ds, k, [("obs",), ("fcst",)], t, l, s_[0], opts)
+                            wo, wf = (NAN, NAN) if v is None else v
+                            ctx.count("cells_compared")
+                            if not vutil.num_equal(float(go[a, b, c]), wo, 1e-9, 1e-12) or not vutil.num_equal(float(gf[a, b, c]), wf, 1e-9, 1e-12):
+                                bad = (t, l, s_[0], float(go[a, b, c]), float(gf[a, b, c]), wo, wf)
+                if bad:
+                    ctx.violation("anomaly-applied-twice-or-stale|%s" % ctype, "%s: after whole-array requests for every input, input %d cell (%s,%s,%s): "
+                                  "obs=%r fcst=%r, climatology at the same coordinates gives obs=%r fcst=%r" % ((flag, k) + bad), case)
+                    break
+                m = verif.metric.Mae()
+                got = m.compute(data, k, vutil.vaxis("leadtime"), None)
+                sl = refmodel.slices(ds, k, [("obs",), ("fcst",)], "leadtime", opts)
+                for i, (lab, cs) in enumerate(sl):
+                    want = refmetrics_mean([abs(x[0] - x[1]) for x in cs]) if cs else NAN
+                    if not vutil.num_equal(float(got[i]), want, 1e-9, 1e-9):
+                        ctx.violation("anomaly-score-after-whole-array-request|%s" % ctype, "%s: mae at lead time %s for input %d = %r after whole-array "
+                                      "requests, reference %r" % (flag, lab, k, float(got[i]), want), case)
+                        break
+        except SystemExit:
+            pass
+        # (the driver makes the same whole-array requests when it has to choose thresholds itself, e.g. -m ets without -r)
+        o1 = runner.run_cli(paths + [flag, cpath, "-m", "ets", "-x", "no", "-type", "csv"])
+        if o1.status == "crash":
+            ctx.violation("crash|%s@%s" % (o1.exc_type, o1.where), o1.tb, case)
+
     # (b) csv tables against the reference interpreter
     if all("fcst" in i["has"] for i in ds["inputs"]):
         for _ in range(4):
